@@ -19,6 +19,7 @@ type clientSpec struct {
 	preCancel   bool
 	part        string
 	ctxDeadline time.Duration // > 0: the caller's context carries this deadline (absolute virtual offset)
+	cancelMidOp bool          // the cancellation may land while the caller is parked in the middle of Acquire
 }
 
 type client struct {
@@ -139,6 +140,7 @@ func drawScen(r *Run, o scenOpts) *scen {
 				sp.preCancel = true
 			} else {
 				sp.cancelAt = o.cancelTimes[k-1]
+				sp.cancelMidOp = t.Chance(40, "cancel-midop?")
 			}
 		}
 		if c.Strategy == "lookup" || c.Strategy == "predicate" {
@@ -164,7 +166,7 @@ func drawScen(r *Run, o scenOpts) *scen {
 	}
 	r.Mixf("%s %s clients=%d preheld=%d", r.P.ID, c, n, pre)
 	for i, cl := range sc.clients {
-		r.Mixf("  client%d arrive=%v hold=%v outcome=%s cancelAt=%v preCancel=%v part=%q ctxDeadline=%v", i, cl.spec.arrive, cl.spec.hold, outcomeNames[cl.spec.outcome], cl.spec.cancelAt, cl.spec.preCancel, cl.spec.part, cl.spec.ctxDeadline)
+		r.Mixf("  client%d arrive=%v hold=%v outcome=%s cancelAt=%v midop=%v preCancel=%v part=%q ctxDeadline=%v", i, cl.spec.arrive, cl.spec.hold, outcomeNames[cl.spec.outcome], cl.spec.cancelAt, cl.spec.cancelMidOp, cl.spec.preCancel, cl.spec.part, cl.spec.ctxDeadline)
 	}
 	for i, rl := range sc.releases {
 		r.Mixf("  release%d at=%v outcome=%s", i, rl.at, outcomeNames[rl.outcome])
@@ -252,9 +254,16 @@ func (sc *scen) start() {
 		if cl.spec.cancelAt >= 0 {
 			s.Go("canceller", func(tk *Task) {
 				tk.Sleep(cl.spec.cancelAt)
-				// cancel only while the target is not parked inside an operation (keeps select choices deterministic)
-				if !tk.WaitFor("target-not-midop", func() bool { return !cl.tk.MidOp() }) {
-					return
+				// either wait until the target is not parked inside an operation (it is then blocked in its
+				// select, or between operations), or cancel at this very scheduling step, wherever the
+				// target is parked inside Acquire (the order in which a select with several ready cases
+				// tries them is drawn by the simulator, so this stays replayable)
+				if !cl.spec.cancelMidOp {
+					if !tk.WaitFor("target-not-midop", func() bool { return !cl.tk.MidOp() }) {
+						return
+					}
+				} else if cl.tk.MidOp() {
+					sc.r.Fault("F-cancel-midop")
 				}
 				cl.cancelT = s.Now()
 				cl.cancelStep = s.Step
